@@ -147,8 +147,8 @@ func thGen(rng *rand.Rand, i int) thInput {
 	var in thInput
 	in.FPS = 1 + rng.Intn(9)
 	in.BucketSecs = 1 + rng.Intn(60)
-	if rng.Intn(3) == 0 {
-		in.BucketSecs = 1 + rng.Intn(5)
+	if rng.Intn(3) > 0 {
+		in.BucketSecs = 1 + rng.Intn(6) // small buckets: the throttle actually engages
 	}
 	refills := []int64{int64(time.Second), int64(10 * time.Second), int64(time.Minute), int64(10 * time.Minute), int64(time.Hour), int64(2 * time.Hour), int64(1500 * time.Millisecond), int64(7 * time.Second)}
 	in.RefillNs = refills[rng.Intn(len(refills))]
